@@ -1,4 +1,6 @@
 import Pkgcore.Proofs.C03Slot
+import Pkgcore.Proofs.C02
+import Pkgcore.Proofs.C04
 /-!
 # C03 — assembling the phases: `parseWith` accepts exactly the renderings of well-formed records
 -/
@@ -811,5 +813,173 @@ theorem parseWith_sound {o : Opts} {rOk : Bool} {s : Str} {a : Atom} (h : parseW
     rfl
   · -- the result is the normal form
     simp [norm, mkAtom, e2]
+
+
+/-! ## normal form, dialects -/
+
+theorem sortUse_idem (u : List Str) : sortUse (sortUse u) = sortUse u :=
+  sortUse_perm _ _ (List.mergeSort_perm u _)
+
+theorem norm_norm (a : Atom) : norm (norm a) = norm a := by
+  cases hu : a.use with
+  | none => simp [norm, hu]
+  | some u => simp [norm, hu, sortUse_idem]
+
+theorem WF0_norm {d : Dialect} {o : Opts} {r : Bool} {a : Atom} (h : WF0 d o r a) : WF0 d o r (norm a) := by
+  obtain ⟨h1, h2, h3, h4, h5, h6, h7, h8⟩ := h
+  refine ⟨h1, h2, h3, h4, h5, h6, h7, ?_⟩
+  show match (a.use.map sortUse) with
+    | none => True
+    | some u => o.hasUseDeps = true ∧ u ≠ [] ∧ ∀ t ∈ u, useTokOk o t
+  cases hu : a.use with
+  | none => trivial
+  | some u =>
+    rw [hu] at h8
+    obtain ⟨g1, g2, g3⟩ := h8
+    refine ⟨g1, ?_, fun t ht => g3 t ((mem_sortUse u t).mp ht)⟩
+    intro e
+    cases u with
+    | nil => exact g2 rfl
+    | cons x xs =>
+      have : x ∈ sortUse (x :: xs) := (mem_sortUse _ x).mpr (by simp)
+      rw [e] at this
+      cases this
+
+/-- C04's `match_eq_spec` (re-derived from the lemmas of `Proofs/C04.lean`) -/
+theorem c04_match_eq_spec (a : C04.Atom) (p : C04.Pkg) (ha : C04.Spec.Atom.WF a) (hp : C04.Spec.Pkg.WF p)
+    (hn : a.negate = false) : C04.atomMatch a p = C04.Spec.matchSpec a p := by
+  rw [C04.atomMatch_eq a p ha.2]
+  unfold C04.matchSpecWith C04.Spec.matchSpec
+  congr 5
+  cases hv : a.vop with
+  | none => rfl
+  | some q =>
+    obtain ⟨op, v, r⟩ := q
+    have hw : C01.Spec.WF v := by have := ha.1; rw [hv] at this; exact this
+    simp only [hn]
+    rw [C04.versionRestr_eq op v r false p hw hp]
+    cases op <;> simp [C04.Spec.opSpec]
+
+
+theorem versionLike_mono {t : Str} (h : VersionLike pms t) : VersionLike lenient t := by
+  obtain ⟨v, r, hv, hr, e⟩ := h
+  exact ⟨v, r, verOk_mono hv, hr, e⟩
+
+theorem pkgOk_pms_of_lenient {s : Str} (h : pkgOk lenient s) : pkgOk pms s :=
+  ⟨h.1, fun p t e hv => h.2 p t e (versionLike_mono hv)⟩
+
+theorem slotNameOk_pms_of_lenient {s : Str} (h : slotNameOk lenient s = true)
+    (hp : match s with | c :: _ => c ≠ '+' | [] => True) : slotNameOk pms s = true := by
+  cases s with
+  | nil => simp [slotNameOk] at h
+  | cons c cs =>
+    simp only at hp
+    simp only [slotNameOk, pms, lenient, Bool.and_eq_true, Bool.not_eq_true', startsWithAny, if_true,
+      Bool.false_eq_true, if_false, List.contains_cons, List.contains_nil, Bool.or_false, Bool.or_eq_false_iff,
+      beq_eq_false_iff_ne] at h ⊢
+    exact ⟨h.1, h.2.1, h.2.2, hp⟩
+
+/-- a record well-formed in pkgcore's reading is well-formed in the PMS reading unless it uses one of the two
+deviations -/
+theorem WF0_pms_of_lenient {o : Opts} {r : Bool} {a : Atom} (h : WF0 lenient o r a) (hs : PmsStrict a) :
+    WF0 pms o r a := by
+  obtain ⟨h1, h2, h3, h4, h5, h6, h7, h8⟩ := h
+  obtain ⟨s1, s2, s3⟩ := hs
+  refine ⟨h1, pkgOk_pms_of_lenient h2, ?_, h4, h5, ?_, h7, h8⟩
+  · cases hv : a.vop with
+    | none => trivial
+    | some q =>
+      obtain ⟨op, v, rv⟩ := q
+      rw [hv] at h3 s1
+      refine ⟨?_, h3.2.1, h3.2.2⟩
+      have := h3.1
+      simp only [verOk, pms, lenient, Bool.and_eq_true] at this ⊢
+      refine ⟨⟨this.1.1, ?_⟩, this.2⟩
+      cases hl : v.letter with
+      | none => rfl
+      | some c => simp only [hl] at s1; exact s1
+  · rw [slotOk_eq] at h6 ⊢
+    cases hsl : a.slot with
+    | none => rw [hsl] at h6; exact h6
+    | some sl =>
+      rw [hsl] at h6 s2
+      obtain ⟨g1, g2, g3, g4⟩ := h6
+      refine ⟨g1, slotNameOk_pms_of_lenient g2 (by cases sl <;> simp_all), ?_, g4⟩
+      cases hss : a.subslot with
+      | none => trivial
+      | some ss =>
+        rw [hss] at g3 s3
+        exact ⟨g3.1, slotNameOk_pms_of_lenient g3.2 (by cases ss <;> simp_all)⟩
+
+/-- and a PMS-well-formed record is well-formed in pkgcore's reading as soon as its package name is -/
+theorem WF0_lenient_of_pms {o : Opts} {r : Bool} {a : Atom} (h : WF0 pms o r a) (hp : pkgOk lenient a.pkg) :
+    WF0 lenient o r a := by
+  obtain ⟨h1, _, h3, h4, h5, h6, h7, h8⟩ := h
+  refine ⟨h1, hp, ?_, h4, h5, ?_, h7, h8⟩
+  · cases hv : a.vop with
+    | none => trivial
+    | some q =>
+      obtain ⟨op, v, rv⟩ := q
+      rw [hv] at h3
+      exact ⟨verOk_mono h3.1, h3.2.1, h3.2.2⟩
+  · rw [slotOk_eq] at h6 ⊢
+    cases hsl : a.slot with
+    | none => rw [hsl] at h6; exact h6
+    | some sl =>
+      rw [hsl] at h6
+      obtain ⟨g1, g2, g3, g4⟩ := h6
+      refine ⟨g1, slotNameOk_mono g2, ?_, g4⟩
+      cases hss : a.subslot with
+      | none => trivial
+      | some ss =>
+        rw [hss] at g3
+        exact ⟨g3.1, slotNameOk_mono g3.2⟩
+
+/-- `1A` is not a version for the PMS -/
+theorem not_versionLike_pms_1A : ¬ VersionLike pms ['1', 'A'] := by
+  rintro ⟨v, r, hv, hr, e⟩
+  have hw : WFfull v := (verOk_lenient_iff v).mp (verOk_mono hv)
+  cases r with
+  | cons c cs =>
+    have : '-' ∈ ['1', 'A'] := by rw [e]; simp [revText]
+    simp at this
+  | nil =>
+    simp only [revText, List.isEmpty_nil, if_true, List.append_nil] at e
+    have hl := lexVer_render_aux v hw
+    rw [← e] at hl
+    have : lexVer ['1', 'A'] = some ⟨[['1']], some 'A', []⟩ := rfl
+    rw [this] at hl
+    simp only [Option.some.injEq] at hl
+    subst hl
+    simp [verOk, pms] at hv
+
+/-- `b-1A` is a valid package name for the PMS -/
+theorem pkgOk_pms_b1A : pkgOk pms ['b', '-', '1', 'A'] := by
+  refine ⟨by decide, ?_⟩
+  intro p t e hv
+  have hsp : splitOn '-' ['b', '-', '1', 'A'] = [['b'], ['1', 'A']] := rfl
+  rw [e, splitOn_append_sep] at hsp
+  have ht : splitOn '-' t = [['1', 'A']] := by
+    cases h1 : splitOn '-' p with
+    | nil => exact absurd h1 (splitOn_ne_nil _ _)
+    | cons x xs =>
+      cases h2 : splitOn '-' t with
+      | nil => exact absurd h2 (splitOn_ne_nil _ _)
+      | cons y ys =>
+        rw [h1, h2] at hsp
+        cases xs with
+        | nil =>
+          simp only [List.cons_append, List.nil_append, List.cons.injEq] at hsp
+          rw [hsp.2.1, hsp.2.2]
+        | cons z zs =>
+          simp only [List.cons_append, List.cons.injEq] at hsp
+          have := hsp.2.2
+          cases zs <;> simp at this
+  have : t = ['1', 'A'] := by
+    have := joinSep_splitOn '-' t
+    rw [ht] at this
+    exact this.symm
+  subst this
+  exact not_versionLike_pms_1A hv
 
 end Pkgcore.C03
